@@ -15,10 +15,10 @@ pub const SPEC: FamilySpec = FamilySpec {
     property: "C15",
     cmd: "c15",
     profile: Profile::Bytes,
-    fams: &[Fam::Bind, Fam::Panic],
+    fams: &[Fam::Bind, Fam::Alive, Fam::Panic],
     stall_is_violation: true,
     runs_quick: 16_000,
-    runs_thorough: 800_000,
+    runs_thorough: 6_400_000,
     rule: "one case = one execution of (a) a seeded scenario with 1-8 concurrent bind requests from either side (both bind types, hosts of 0..40 bytes, answers accept / reject / drop / never with seeded delays so that answers arrive in every order, \
 responder with binds enabled or disabled) interleaved with 0-3 streams and datagrams; (b) a re-use run: the requester's RNG is scripted to hand out the id of a request that has just resolved for the next request or stream, immediately or after a quiescent point. \
 Oracle: each request's result equals the decision the peer application took for that very request (matched by its unique port), no result while the peer has neither answered nor dropped it, type/host/port/flow id shown to the peer equal the request, \
@@ -130,6 +130,7 @@ fn reuse_case(st: &mut Stats, seed: u64) {
         resp.await.ok();
         acc.await.ok();
         let (m0, t0, m1, t1) = (e0.mux, e0.task, e1.mux, e1.task);
+        sh.api(0, 0, Api::MuxDrop);
         drop(m0);
         t0.await.ok();
         drop(m1);
